@@ -70,6 +70,10 @@ def prepare(case):
     inputs = GR.build_inputs(case["inputs"])
     ctext, lam_params = RD.adapt(case["text"], case["params"], case["role"])
     b = bindings(case["role"], lam_params, inputs)
+    for p_ in RD.with_condition_defaults(ctext, [], case["role"]):
+        # a parameter of the condition that takes its own default: Python evaluates the condition with that value
+        name, default = p_.split("=")
+        b[name] = ast.literal_eval(default)
     st_, val = OR.evaluate(ctext, b, list(b))
     if st_ == "raises":
         return None
@@ -146,7 +150,7 @@ def judge(ctx, case, ctext, lam_params, b, inputs, nodes, rec, parsed, msg):
         ctx.fail("%s|%s|%s" % (clause, kind, sorted(feats & {"boolop", "boolop-in-call", "star-arg", "f-string", "named-expr",
                                                              "comprehension", "all-any"})), case,
                  "%s\ncondition: lambda %s: %s\nrole: %s\ninputs: %r\nmessage:\n%s" % (
-                     detail, ", ".join(lam_params), ctext, shape, case["inputs"], msg))
+                     detail, ", ".join(RD.with_condition_defaults(ctext, lam_params, role)), ctext, shape, case["inputs"], msg))
 
     for key, val in parsed["entries"]:
         try:
